@@ -6,6 +6,9 @@
 //        ALL <graph>   trees of all sources (built with emplace_back into a vector, as the algorithms do), double weights
 //        ALLI <graph>  same, int weights
 //        ALLL <graph>  same, long long weights
+//        U s <graph> / ALLU <graph>   unsigned long weights (an unsigned DistanceType: differences of distances wrap around)
+//        TS scale s <graph> / ALLS scale <graph>   double weights w * 2^scale (tiny / huge magnitudes, exact); distances are printed in the
+//                      case's units (unscaled), so the answer must equal that of T s <graph> / ALL <graph>
 // output: "T" then, for every vertex, " | node dist pred_edge_id parent first" ("0 - - - first" without node;
 //         the root has pred = parent = -1); ALL: "ALL" then " ; " + tree for every source.
 #include "graph.hpp"
@@ -27,10 +30,11 @@ template<class G> void print_tree(std::ostream &out, GCase<G> &c, parmcb::SPTree
     }
 }
 
-template<class G> void run_one(Toks &t, std::ostream &out, bool through_vector) {
+template<class G> void run_one(Toks &t, std::ostream &out, bool through_vector, bool scaled = false) {
     typedef typename boost::property_map<G, boost::edge_weight_t>::type WMap;
+    int scale = scaled ? (int) t.next_ll() : 0;
     size_t s = t.next_sz();
-    GCase<G> c; read_graph(t, c);
+    GCase<G> c; read_graph(t, c, scale);
     WMap wm = boost::get(boost::edge_weight, c.g);
     auto im = boost::get(boost::vertex_index, c.g);
     if (s >= boost::num_vertices(c.g)) { out << "IMPL-EXCEPTION source out of range"; return; }
@@ -45,9 +49,10 @@ template<class G> void run_one(Toks &t, std::ostream &out, bool through_vector) 
     }
 }
 
-template<class G> void run_all(Toks &t, std::ostream &out) {
+template<class G> void run_all(Toks &t, std::ostream &out, bool scaled = false) {
     typedef typename boost::property_map<G, boost::edge_weight_t>::type WMap;
-    GCase<G> c; read_graph(t, c);
+    int scale = scaled ? (int) t.next_ll() : 0;
+    GCase<G> c; read_graph(t, c, scale);
     WMap wm = boost::get(boost::edge_weight, c.g);
     auto im = boost::get(boost::vertex_index, c.g);
     std::vector<parmcb::SPTree<G, WMap>> trees;
@@ -67,6 +72,10 @@ int main() {
         else if (kind == "ALL") run_all<DGraph>(t, out);
         else if (kind == "ALLI") run_all<IGraph>(t, out);
         else if (kind == "ALLL") run_all<LGraph>(t, out);
+        else if (kind == "U") run_one<UGraph>(t, out, false);
+        else if (kind == "ALLU") run_all<UGraph>(t, out);
+        else if (kind == "TS") run_one<DGraph>(t, out, false, true);
+        else if (kind == "ALLS") run_all<DGraph>(t, out, true);
         else throw std::runtime_error("c12: bad kind " + kind);
     });
 }
